@@ -31,7 +31,8 @@ def run(rep, tier):
     rep.floor('configurations of Seq', total.get('Seq', 0), 1300)
     rep.rule('SPAN-start-first', 'in the emitted parse function of every class the start of the span is captured from _pos '
                                  'before anything moves the position (class start rules with ignore patterns included)')
-    rfound, rstats, _ = routes.run(rep, 'C10', ['SPAN-start-first'])
+    rep.rule('SPAN-fresh-instance', 'every match of a class builds a new instance to carry its span')
+    rfound, rstats, _ = routes.run(rep, 'C10', ['SPAN-start-first', 'SPAN-fresh-instance'])
     rep.floor('route facts: class_span_functions', rstats.get('class_span_functions', 0), 20)
     for what, tree, rel in routes.runtime_subjects():
         fns = load.functions_of(tree)
